@@ -60,6 +60,7 @@ def plan(tier, seed):
                 shards.append({'kind': 'names', 'nw': nw, 'first': w})
     shards.append({'kind': 'malformed'})
     shards.append({'kind': 'keywords'})
+    shards.append({'kind': 'after_prelude'})
     for st in STYLES:
         shards.append({'kind': 'classes', 'style': st})
     return shards
@@ -283,6 +284,34 @@ def run_shard(shard, tier):
             n += 1
         res['outcomes']['keyword_names'] += n
         res['nontrivial'].add('keywords')
+    elif kind == 'after_prelude':
+        # state carried from call to call: BEFORE the names of the domain are looked at, the function is called on names
+        # outside it that it accepts all the same (words of ONE letter, and whatever it turns them into, in every style); the
+        # laws over the domain must hold exactly as in a fresh process
+        seen = 0
+        for nw in (1, 2, 3):
+            for ws in itertools.product('abz', repeat=nw):
+                todo = ['_'.join(ws)]
+                for s in STYLES:
+                    try:
+                        todo.append(rename_field('_'.join(ws), s))
+                    except ValueError:
+                        pass
+                for nm in todo:
+                    for s in STYLES:
+                        try:
+                            rename_field(nm, s)
+                            seen += 1
+                        except ValueError:
+                            pass
+        res['outcomes']['prelude_calls'] += seen
+        n = 0
+        for nw in (1, 2):
+            for ws in itertools.product(WORDS, repeat=nw):
+                check_name(rename_field, ws, res, None)
+                n += 1
+        res['outcomes']['names_after_prelude'] += n
+        res['nontrivial'].add('after_prelude')
     elif kind == 'classes':
         import warnings
         warnings.simplefilter('ignore')
